@@ -163,7 +163,7 @@ func judge(c *Case) (sig, detail string) {
 	if uerrKind != "Err" {
 		// catch / ignore act iff the kind matches: an ancestor of the raised kind is not a match
 		qs = append(qs, []struct{ src, want string }{{"w.catch(Err){|e| 5}.err?", "true"}, {"w.ignore(Err).err?", "true"}, {"w.catch(Obj){|e| 5}.err.type == " + uerrKind, "true"},
-			{"w.ignore(Err).abandon.try.err.type == " + uerrKind, "true"}}...)
+			{"nil.try.{|t| w.ignore(Err).abandon}.err.type == " + uerrKind, "true"}}...)
 	}
 	if !strings.ContainsAny(uerrMsg, "\"\\") {
 		qs = append(qs, struct{ src, want string }{"w.err.msg", fmt.Sprintf("%q", uerrMsg)})
